@@ -116,4 +116,13 @@ TEXT["C20"] = {
     "note": _TB + "Panics are explored, not proved absent; the sweep runs at concurrency 1 (sub-lists under parallelism are covered by the theorem, not enumerated).",
     "technique": "Lean 4 proofs over faulty folds (error propagation, chunk granularity, retry idempotence) + exhaustive fault-position sweep through an injecting store wrapper",
 }
+TEXT["C02"] = {
+    "level": "Machine-checked compositional proof: a handle that serves a value stays a serving handle through every modelled partial decoder — storage handle, strip-suffix (checksum codecs, all three range forms), "
+             "byte interval, decode-all fallbacks and compressors (for any codec inverting its encoding), byte and array caches, the `bytes` partial decoder (either byte order, complex component swap), transpose, "
+             "squeeze — and hence through EVERY chain of these stages in any order with or without inserted caches: the chain's partial decoder answers every in-bounds list of regions with exactly the regions "
+             "of the fully decoded chunk, and an absent value with fill. On the real code every sub-box of sampled chunks goes through the chunk partial decoder / chunk-subset / chunk-crossing reads for chains over "
+             "all registered codecs incl. nested sharding and is compared with the model AND with the implementation's own full decode + slice.",
+    "note": _TB + "The sharding partial decoder and blosc's item-wise partial decode are corresponded (C02 harness, C15 bounds theorems), not part of the chain theorem; external compressors enter through the inversion law.",
+    "technique": "Lean 4 compositional handle-invariant proof over partial decoders and chains + exhaustive sub-box differential reads",
+}
 NOT_YET = {}
